@@ -22,7 +22,7 @@ import (
 	"verifharness/lib"
 )
 
-var raceParts = []string{"loader", "files", "values", "types"}
+var raceParts = []string{"loader", "files", "values", "types", "declare"}
 
 type raceParams struct {
 	Kind   string `json:"kind"`
